@@ -183,7 +183,7 @@ pub fn run(ctx: &Ctx) -> EvidenceMeta {
     ctx.enumerate("boundary", &fixed, test);
     ctx.proptest(
         "generated",
-        ctx.n(200_000, 5_000_000),
+        ctx.n(1_000_000, 20_000_000),
         || {
             (sockaddr_strategy(), tid_strategy(), tid_strategy()).prop_map(|(addr, tid, other_tid)| Case {
                 addr,
